@@ -48,6 +48,45 @@ func init() {
 					x.check(ok, "caller="+prog.FnName(c.Parent())+" of="+m+" doc(any)", x.pos(c), "derived state written under the document lock", "a row derived from the change log is written without the document lock (it can belong to the epoch before a compaction): "+why)
 				}
 			}
+			// a re-validation of the epoch (DocInfo.Epoch of a freshly read row compared with the one the work was
+			// started for) only means something if the row is read while the document lock is held: read before the
+			// lock, a compaction can commit between the comparison and the lock
+			dEpoch := x.P.Field(dbPkg + ".DocInfo.Epoch")
+			dbI := x.P.Named(dbPkg + ".Database")
+			if dEpoch != nil && dbI != nil {
+				for _, fn := range x.P.FuncsIn("server/packs") {
+					i := 0
+					for _, b := range fn.Blocks {
+						iff := prog.IfOf(b)
+						if iff == nil {
+							continue
+						}
+						bo, ok := iff.Cond.(*ssa.BinOp)
+						if !ok || prog.LoadedField(bo.X) != dEpoch || prog.LoadedField(bo.Y) != dEpoch {
+							continue
+						}
+						for _, side := range []ssa.Value{bo.X, bo.Y} {
+							var read ssa.CallInstruction
+							prog.Reaches(prog.FieldBase(side), func(w ssa.Value) bool {
+								if ex, isE := w.(*ssa.Extract); isE {
+									w = ex.Tuple
+								}
+								if c, isC := w.(*ssa.Call); isC && c.Call.IsInvoke() && isNamed(c.Call.Value.Type(), dbI) {
+									read = c
+									return true
+								}
+								return false
+							})
+							if read == nil {
+								continue
+							}
+							i++
+							ok2, why := x.mustHold(read, "doc", "RW")
+							x.check(ok2, fmt.Sprintf("func=%s epoch-revalidation#%d row-read-under-doc-lock", prog.FnName(fn), i), x.pos(read), "the row whose epoch is compared is read under the document lock", "the epoch is re-validated on a row read before the document lock was taken: a compaction can reset the log between the comparison and the lock, and the snapshot/revision written afterwards belongs to the previous generation: "+why)
+						}
+					}
+				}
+			}
 		}})
 
 	register(&Rule{ID: "CMP.order", Min: 6, Text: "packs.Compact: the log reset (Database.CompactChangeInfos) is reachable only on the edge where the document is not attached or force is set; never from the edge on which the rebuilt content differs from the original; the snapshot cache is invalidated before the reset; the stored change comes from the rebuilt document's change pack; the compare-and-set value passed is the ServerSeq the rebuild was made for",
@@ -202,7 +241,7 @@ func init() {
 			x.check(okReset == 2, k+" ServerSeq=len(changes)", x.fpos(fn), "ServerSeq restarts at the number of stored changes", "the restarted ServerSeq is not the number of stored changes (0 or 1)")
 		}})
 
-	register(&Rule{ID: "O3.epoch", Min: 5, Text: "stale clients are refused before anything is written or read: in the push function a non-empty list reaches the log append only on an edge where the client has no record of the document or its Epoch equals the Epoch of the DocInfo re-read under the push lock; in the pull preparation both the change pull and the snapshot pull are unreachable from the edge on which the epochs differ, and that edge returns ErrEpochMismatch; the detach/remove exception is taken only for that sentinel",
+	register(&Rule{ID: "O3.epoch", Min: 5, Text: "stale clients are refused before anything is written or read: in the push function a non-empty list reaches the log append only on an edge where the client has no record of the document or its Epoch equals the Epoch of the DocInfo re-read under the push lock; in the pull preparation both the change pull and the snapshot pull are dominated by the epoch comparison and unreachable from the edge on which the epochs differ, and that edge returns ErrEpochMismatch; the detach/remove exception is taken only for that sentinel",
 		Run: func(x *Ctx) {
 			p := x.pipe()
 			if !p.ok {
@@ -311,6 +350,39 @@ func init() {
 				if x.reaching(p.FindBetween)[cal] || cal == prep || x.reaching(x.P.FnObj(convPkg + ".SnapshotToBytes"))[cal] {
 					n++
 					x.rejectOn(fmt.Sprintf("%s pull#%d unreachable-on-epoch-mismatch", hk, n), c, differ)
+					// … and the comparison is made before the pull on every path (a pull hoisted above the test is not
+					// reachable from the mismatch edge either)
+					cut := map[prog.Edge]bool{}
+					for _, b := range host.Blocks {
+						iff := prog.IfOf(b)
+						if iff == nil {
+							continue
+						}
+						if _, found := relOnTrue(iff.Cond, differ.L, differ.R, nil); !found {
+							continue
+						}
+						for _, sc := range b.Succs {
+							cut[prog.Edge{From: b, To: sc}] = true
+						}
+						// the 'client has no record of the document' edge that bypasses the comparison
+						for _, a := range host.Blocks {
+							ai := prog.IfOf(a)
+							if ai == nil || a == b {
+								continue
+							}
+							bo, ok := ai.Cond.(*ssa.BinOp)
+							if !ok || !(prog.IsNilConst(bo.X) || prog.IsNilConst(bo.Y)) {
+								continue
+							}
+							for _, sc := range a.Succs {
+								if sc != b && !sc.Dominates(b) && a.Dominates(b) {
+									cut[prog.Edge{From: a, To: sc}] = true
+								}
+							}
+						}
+					}
+					tested := len(cut) > 0 && prog.CutDisconnects(host, c.Block(), cut)
+					x.check(tested, fmt.Sprintf("%s pull#%d after-the-epoch-comparison", hk, n), x.pos(c), "the epoch comparison dominates the pull", "a pull can run without the epochs having been compared: a client of the previous generation is handed content of the new one (or its checkpoint is compared with serverSeqs of another generation) instead of ErrEpochMismatch")
 				}
 			}
 			if n < 2 {
